@@ -74,7 +74,21 @@ def run(ctx):
                   'initiator, else spi_i', key=('D1', 'lookup-key'), site=ctx.site(dm, c.node), detail={'key': tq.text(key, 300)})
         # StopIteration -> return None without effect
         def missed(pc):
-            return any(a[0][0] == 'caught' and 'StopIteration' in tq.text(a[0]) and a[1] for a in pc)
+            """this path is taken when - and only when - the lookup's StopIteration was caught: directly under the handler, or under a
+            test of the value the handler leaves behind (`ike_sa = None` ... `if ike_sa is None`)"""
+            from ..sval import is_const, cval
+
+            def under(v):
+                return lambda t: v if (t[0] == 'caught' and 'StopIteration' in tq.text(t)) else None
+            rel = [a for a in pc if tq.find(a[0], lambda t: t[0] == 'caught' and 'StopIteration' in tq.text(t)) or
+                   (a[0][0] == 'caught' and 'StopIteration' in tq.text(a[0]))]
+            if not rel:
+                return False
+            hit = [tq.restrict(a[0], under(True)) if a[0][0] != 'caught' else ('const', 'bool', True) for a in rel]
+            oth = [tq.restrict(a[0], under(False)) if a[0][0] != 'caught' else ('const', 'bool', False) for a in rel]
+            holds = all(is_const(h) and bool(cval(h)) == a[1] for h, a in zip(hit, rel))
+            fails = any(is_const(o) and bool(cval(o)) != a[1] for o, a in zip(oth, rel)) or any(not is_const(o) for o in oth)
+            return holds and fails
         rets = [(pc, t) for pc, t, _ in DM.returns if missed(pc)]
         ctx.check(bool(rets), 'D1', 'a datagram for an unknown SPI is handled (StopIteration caught at the lookup)',
                   key=('D1', 'unknown-spi-unhandled'), site=ctx.site(dm, c.node))
